@@ -399,36 +399,33 @@ func TestC02(t *testing.T) {
 			note("panic")
 			return
 		}
-		// The reader model is the one of every net.Conn consumer: the
-		// first read error ends the stream. What a reader that carries on
-		// regardless would still be handed is only counted (a record
-		// whose body fails authentication leaves the nonce and the
-		// framing in step, so later genuine records still decrypt).
+		// The reader model is a reader that carries on after a read error
+		// (a consumer that stops at the first error sees a prefix of what
+		// this one sees). Everything it is ever handed as valid,
+		// concatenated, must be a prefix of what the peer wrote: after a
+		// record was rejected nothing but that very record's genuine
+		// successor-in-order may follow, so "one, error, three" is as much
+		// a violation as altered, replayed, reflected or misframed data.
+		beforeErr := len(got)
+		if firstErr >= 0 && firstErr < beforeErr {
+			beforeErr = firstErr
+		}
 		if firstErr >= 0 && len(got) > firstErr {
-			// What a reader that carries on after the error is handed
-			// must still be authentic and in order: genuine later
-			// messages of the peer (a record whose body fails
-			// authentication leaves the nonce and the framing in step,
-			// so the following records still decrypt), never altered,
-			// replayed, reflected or misframed data.
-			next := firstErr
-			for _, g := range got[firstErr:] {
-				found := -1
-				for q := next; q < len(msgs); q++ {
-					if bytes.Equal(msgs[q], g) {
-						found = q
-						break
+			note("data-after-error")
+			for i, g := range got[firstErr:] {
+				k := firstErr + i
+				if k >= len(msgs) || !bytes.Equal(g, msgs[k]) {
+					cls := "forged-data-after-error/"
+					for _, m := range msgs {
+						if bytes.Equal(m, g) {
+							cls = "gap-after-error/"
+						}
 					}
-				}
-				if found < 0 {
-					r.Violation("forged-data-after-error/"+ek,
-						fmt.Sprintf("%s: after the read error at position %d the reader was handed %d bytes (%x) that the peer did not write at any later position", label, firstErr, len(g), trunc16(g)), ctx)
+					r.Violation(cls+ek,
+						fmt.Sprintf("%s: after the read error at position %d the reader was handed %d bytes (%x) as message #%d; the peer wrote something else at that position, so the reader's output is no longer a prefix of what the peer wrote", label, firstErr, len(g), trunc16(g), k), ctx)
 					return
 				}
-				next = found + 1
 			}
-			note("resync-after-error (informational)")
-			got = got[:firstErr]
 			after = ""
 		}
 		// 1. outputs are a prefix of what was written
@@ -451,8 +448,8 @@ func TestC02(t *testing.T) {
 				off += len(rc)
 			}
 		}
-		if len(got) > firstBad {
-			r.Violation("tampered-record-accepted/"+ek, fmt.Sprintf("%s: %d messages were returned as valid although the stream deviates from what the peer wrote in record %d", label, len(got), firstBad), ctx)
+		if beforeErr > firstBad {
+			r.Violation("tampered-record-accepted/"+ek, fmt.Sprintf("%s: %d messages were returned as valid before any error although the stream deviates from what the peer wrote in record %d", label, beforeErr, firstBad), ctx)
 			return
 		}
 		// 3. a deviation inside the stream surfaces as an error
